@@ -20,7 +20,7 @@ from . import progs
 
 THEOREMS = ["collect_sound", "collect_complete", "collect_exact", "collect_terminates", "collect_total", "sortedOrder_covers",
             "ids_injective", "ids_positions", "ids_stable", "insts_nodup", "collect_order_independent",
-            "subst_compose", "subst_closed", "reach_closed",
+            "subst_compose", "subst_closed", "reach_closed", "unwrap_param", "unwrap_subst_commutes", "unwrap_raw_wrong",
             "collect_complete_full_counterexample", "collect_sound_full_counterexample"]
 
 # ----------------------------------------------------------------------------------------------------------------
@@ -30,7 +30,7 @@ THEOREMS = ["collect_sound", "collect_complete", "collect_exact", "collect_termi
 INTS = ["int", "int8", "int16", "int32", "uint8", "uint16", "uint32"]
 SHADOW = ["main.X#1", "main.X#2"]     # two DISTINCT types declared in sibling blocks of main(), both printed "main.X"
 EXTRA = ["any", "func(int) string", "struct{A int; B string}"]     # appended AFTER the shadow atoms: protocol indices stay stable
-BASICS = INTS + ["string", "bool", "float64", "base.MyI8", "base.Blk", "base.MyS"] + SHADOW + EXTRA
+BASICS = INTS + ["string", "bool", "float64", "base.MyI8", "base.Blk", "base.MyS"] + SHADOW + EXTRA + ["base.MyCh"]
 # identical types, different spellings: the renderer picks one independently for every textual occurrence
 SPELLINGS = {
     "uint8": ["uint8", "byte"],
@@ -41,9 +41,9 @@ SPELLINGS = {
 }
 BIDX = {b: i for i, b in enumerate(BASICS)}
 TAGGED = ["base.MyI8", "base.Blk", "base.MyS"]
-CONSTRAINT = {"any": "any", "cmp": "comparable", "int": "base.Integer", "tag": "base.Tagger"}
+CONSTRAINT = {"any": "any", "cmp": "comparable", "int": "base.Integer", "tag": "base.Tagger", "ch": "base.ChanInt"}
 # class of a type parameter -> classes it can be passed for
-PARAM_SAT = {"any": {"any"}, "cmp": {"any", "cmp"}, "int": {"any", "cmp", "int"}, "tag": {"any", "tag"}}
+PARAM_SAT = {"any": {"any"}, "cmp": {"any", "cmp"}, "int": {"any", "cmp", "int"}, "tag": {"any", "tag"}, "ch": {"any", "cmp", "ch"}}
 
 BASE_SRC = r'''package base
 
@@ -52,6 +52,11 @@ type Integer interface {
 }
 
 type Tagger interface{ Tag() string }
+
+// ChanInt: type parameters with the core type chan int (for-range over a type-parameter channel is a blocking instance)
+type ChanInt interface{ ~chan int }
+
+type MyCh chan int
 
 type MyI8 int8
 
@@ -388,6 +393,13 @@ def stmt_events(P, st):
         for a in args:
             for n in nested_named(a, []):
                 evs.append(('u', n[1], tuple(n[2]), False))
+    elif kind == 'tsw':          # ('tsw', callee, args, generic): var w B[τ]; switch v := any(w).(type) { case T0: … case B[τ]: … }
+        c, args = st[1], st[2]
+        for _ in range(2):           # the variable declaration, then the case clause
+            evs.append(('u', c, tuple(args), False))
+            for a in args:
+                for n in nested_named(a, []):
+                    evs.append(('u', n[1], tuple(n[2]), False))
     elif kind == 'shadow':       # ('shadow', k, stmt): { type X …; stmt }
         evs += stmt_events(P, st[2])
     elif kind == 'ltype':        # ('ltype', c)
@@ -481,6 +493,8 @@ class Gen:
             return {"any", "cmp", "int"}
         if b in ("any", "func(int) string"):
             return {"any"}
+        if b == "base.MyCh":
+            return {"any", "cmp", "ch"}
         return {"any", "cmp"}
 
     def gen_type(self, P, ctx, cls, depth, closed_only=False, min_pos=None):
@@ -498,6 +512,8 @@ class Gen:
             for b in BASICS:
                 if b not in SHADOW and cls in self.classes_of_basic(b):
                     cands.append(("basic", b))
+        if cls == "ch":             # core type chan int: `chan int` itself or the named base.MyCh
+            cands += [("basic", "base.MyCh"), ("chanint", None)]
         if cls == "tag":
             for b in TAGGED:
                 cands.append(("ptrbasic", b))
@@ -516,6 +532,8 @@ class Gen:
             return ('b', val)
         if kind == "ptrbasic":
             return ('P', ('b', val))
+        if kind == "chanint":
+            return ('C', ('b', "int"))
         sub = lambda c: self.gen_type(P, ctx, c, depth - 1, closed_only, min_pos)
         if kind == "slice":
             return ('S', sub("any"))
@@ -552,6 +570,8 @@ class Gen:
         if d.kind == "func":
             style = rng.choice(["infer", "explicit"])    # incl. pkg.F[τ](…) inside generic code (repair C04-qualified-instantiation-in-generic-body)
             return ('call', d.id, args, style)
+        if rng.random() < 0.25:
+            return ('tsw', d.id, args, generic_ctx)
         return ('var', d.id, args, rng.random() < 0.4)
 
     def program(self):
@@ -569,7 +589,7 @@ class Gen:
             rng.shuffle(order)
             for kind in order:
                 ncls = rng.choice([1, 1, 2, 2, 3])
-                classes = [rng.choice(["any", "any", "any", "int", "cmp", "tag"]) for _ in range(ncls)]
+                classes = [rng.choice(["any", "any", "any", "any", "int", "int", "cmp", "cmp", "tag", "tag", "ch"]) for _ in range(ncls)]
                 if kind == "func":
                     P.new_def(p, "func", "F%d" % len(P.defs), classes)
                 else:
@@ -738,9 +758,47 @@ class Render:
             if c in ("cmp", "int"):
                 out.append('%s{ var a, b %s; m := map[%s]int{}; m[a]++; m[b]++; base.Emit("c%d:" + base.Btoa(any(a) == any(b)) + base.Itoa(len(m))) }' % (
                     ind, T, T, i))
+            if c == "ch":       # receive loop over a channel whose type is the type parameter: this instance must block
+                out.append('%s{ ch := make(%s); go func() { ch <- 3; ch <- 4; close(ch) }(); n := 0; for v := range ch { n += v }; base.Emit("r%d:" + base.Itoa(n)) }' % (ind, T, i))
+                out.append('%s{ ch := make(%s, 1); ch <- 5; close(ch); n := 0; for range ch { n++ }; v, ok := <-ch; base.Emit("q%d:" + base.Itoa(n+v) + base.Btoa(ok)) }' % (ind, T, i))
         for i in range(len(classes)):
             for j in range(i + 1, len(classes)):
                 out.append('%s{ _, ok := any((*%s%d)(nil)).(*%s%d); base.Emit("i%d%d:" + base.Btoa(ok)) }' % (ind, prefix, i, prefix, j, i, j))
+        # type switches and assertions over the type parameters: the bound variable must be the PLAIN value of the type
+        # argument (arithmetic, comparison, method call, re-boxing), whatever the clause form
+        for i, c in enumerate(classes):
+            T = "%s%d" % (prefix, i)
+            U = "%s%d" % (prefix, (i + 1) % len(classes))
+            val = "%s(base.N200)" % T if c == "int" else "*new(%s)" % T
+
+            def use(v):
+                e = "base.Zero(any(%s))" % v
+                if c == "int":
+                    e += ' + ":" + base.Itoa(int(%s+%s(base.N100)))' % (v, T)
+                if c in ("cmp", "int"):
+                    e += ' + base.Btoa(%s == z)' % v
+                if c == "tag":
+                    e += ' + %s.Tag()' % v
+                return e
+            out.append("%s{" % ind)
+            out.append("%s\tvar z %s = %s" % (ind, T, val))
+            out.append("%s\tvar x any = z" % ind)
+            out.append("%s\tswitch v := x.(type) {" % ind)
+            out.append('%s\tcase []%s:\n%s\t\tbase.Emit("ts%d:slice" + base.Itoa(len(v)))' % (ind, T, ind, i))
+            out.append('%s\tcase %s:\n%s\t\tbase.Emit("ts%d:" + %s)' % (ind, T, ind, i, use("v")))
+            out.append('%s\tdefault:\n%s\t\tbase.Emit("ts%d:default")' % (ind, ind, i))
+            out.append("%s\t}" % ind)
+            out.append("%s\tswitch v := x.(type) {" % ind)            # multi-type clause: v keeps the interface type
+            out.append('%s\tcase %s, []%s:\n%s\t\tbase.Emit("tm%d:" + base.Zero(v))' % (ind, T, U, ind, i))
+            out.append('%s\tcase nil:\n%s\t\tbase.Emit("tm%d:nil")' % (ind, ind, i))
+            out.append("%s\t}" % ind)
+            out.append('%s\tif w, ok := x.(%s); ok {\n%s\t\tbase.Emit("ta%d:" + %s)\n%s\t}' % (ind, T, ind, i, use("w"), ind))
+            out.append("%s\tvar y any = []%s{z, z}" % (ind, T))
+            out.append("%s\tswitch v := y.(type) {" % ind)
+            out.append('%s\tcase %s:\n%s\t\tbase.Emit("tl%d:elem" + %s)' % (ind, T, ind, i, use("v")))
+            out.append('%s\tcase []%s:\n%s\t\tbase.Emit("tl%d:" + base.Itoa(len(v)) + %s)' % (ind, T, ind, i, use("v[1]")))
+            out.append("%s\t}" % ind)
+            out.append("%s}" % ind)
         return out
 
     def stmts(self, body, pkg, ind, own="T", nest="T"):
@@ -782,6 +840,23 @@ class Render:
                     for fi, f in enumerate(d.body):
                         out.append('%sbase.Emit("%s.F%d:" + %s.F%d.Tag())' % (ind, d.name, fi, v, fi) if P.defs[f[1]].kind == 'type' else
                                    '%s_ = %s.F%d' % (ind, v, fi))
+            elif k == 'tsw':
+                c, args, generic = st[1], st[2], st[3]
+                d = P.defs[c]
+                self.tmp += 1
+                w = "w%d" % self.tmp
+                t1 = ", ".join(self.ty(a, pkg, own, nest) for a in args)
+                t2 = ", ".join(self.ty(a, pkg, own, nest) for a in args)
+                out.append("%s{" % ind)
+                out.append("%s\tvar %s %s[%s]" % (ind, w, self.qual(d, pkg), t1))
+                out.append("%s\tvar x any = %s" % (ind, w))
+                out.append("%s\tswitch v := x.(type) {" % ind)
+                if generic:
+                    out.append('%s\tcase %s0:\n%s\t\tbase.Emit("tsw:T:" + base.Zero(any(v)))' % (ind, own, ind))
+                out.append('%s\tcase %s[%s]:\n%s\t\tbase.Emit("tsw:B:" + v.Val())\n%s\t\tv.Run()' % (ind, self.qual(d, pkg), t2, ind, ind))
+                out.append('%s\tdefault:\n%s\t\tbase.Emit("tsw:default")' % (ind, ind))
+                out.append("%s\t}" % ind)
+                out.append("%s}" % ind)
             elif k == 'shadow':
                 out.append("%s{" % ind)
                 out.append("%s\ttype X struct{ a %s }" % (ind, ["int", "int8"][st[1] - 1]))
@@ -1021,6 +1096,8 @@ CONTROLS = [
         "leaf/leaf.go": LEAF,
         "main.go": 'package main\n\nimport "MOD/leaf"\n\ntype W[T any] struct{ x T }\n\nfunc (w W[T]) M() int { return leaf.Len[string]([]string{"a"}) }\n\nfunc main() { println(W[int]{}.M()) }\n'}),
     ("repaired-nesting-func-cross-package-positions", {"p1/p1.go": 'package p1\n\ntype B[T any] struct{ A T }\n\nfunc (b *B[T]) Run() int {\n\tn := 0\n\tn++\n\tn++\n\tn++\n\tn++\n\tn++\n\tn++\n\tn++\n\tn++\n\tn++\n\tn++\n\tn++\n\tn++\n\tn++\n\tn++\n\tn++\n\tn++\n\tn++\n\tn++\n\tn++\n\treturn n\n}\n', "main.go": 'package main\n\nimport "MOD/p1"\n\nfunc F[T any](_ T) int {\n\ttype L struct{ V *T }\n\tvar l L\n\tvar v p1.B[T]\n\t_ = l\n\treturn v.Run()\n}\n\nfunc main() { println(F[int](1), F[string]("a")) }\n'}),
+    ("control-range-over-chan-of-type-parameter-elem", {"main.go": 'package main\n\nfunc Drain[E any](c chan E) int {\n\tn := 0\n\tfor range c {\n\t\tn++\n\t}\n\treturn n\n}\n\nfunc Recv[C ~chan E, E any](c C) E { return <-c }\n\nfunc Send[C ~chan E, E any](c C, v E) { c <- v }\n\nfunc main() {\n\tc := make(chan int)\n\tgo func() { c <- 1; c <- 2; close(c) }()\n\tprintln(Drain(c))\n\td := make(chan string)\n\tgo func() { Send(d, "x") }()\n\tprintln(Recv(d))\n}\n'}),
+    ("repaired-range-over-type-parameter-channel", {"main.go": 'package main\n\nfunc Drain[C ~chan E, E any](c C) int {\n\tn := 0\n\tfor range c {\n\t\tn++\n\t}\n\treturn n\n}\n\nfunc Sum[C chan int](c C) int {\n\tn := 0\n\tfor v := range c {\n\t\tn += v\n\t}\n\treturn n\n}\n\nfunc main() {\n\tc := make(chan int)\n\tgo func() { c <- 1; c <- 2; close(c) }()\n\tprintln(Drain(c))\n\td := make(chan int)\n\tgo func() { d <- 3; d <- 4; close(d) }()\n\tprintln(Sum(d))\n}\n'}),
     ("control-local-type-values", {
         "main.go": 'package main\n\nfunc g[T any](x T) any { type cell struct{ v T }; c := cell{x}; return &c }\nfunc h[T any](x T) any { type cell struct{ v T }; return cell{x} }\nfunc k[T any](x T) any { type pair[U any] struct{ v T; u U }; return pair[int]{x, 1} }\n\nfunc main() {\n\tprintln(g[int](1) == g[int](1), h[int](1) == h[int](1), h[int](1) == h[int8](1), k[int](1) == k[int](1), k[int](1) == k[string]("a"))\n}\n'}),
 ]
@@ -1034,6 +1111,52 @@ def msg_class(err):
     if "did not have function declaration instance" in err:
         return "no-func-decl-instance-panic"
     return "other"
+
+
+# ----------------------------------------------------------------------------------------------------------------
+# structure tie: the `.$val` unwrapping of a type-switch clause variable is decided on the SUBSTITUTED type
+# ----------------------------------------------------------------------------------------------------------------
+
+UNWRAP_ARGS = [   # (Go type argument, model term encoding, is an interface atom)
+    ("int", "b0", False), ("int8", "b1", False), ("uint8", "b4", False), ("int64", "b100", False), ("uint64", "b101", False),
+    ("float64", "b9", False), ("string", "b7", False), ("bool", "b8", False), ("[]int", "Sb0", False), ("*int", "Pb0", False),
+    ("map[string]int", "Mb7b0", False), ("chan int", "Cb0", False), ("func(int) string", "b102", False),
+    ("any", "b103", True), ("error", "b104", True), ("Iface", "b105", True), ("Pt", "b106", False), ("Cel", "b107", False),
+    ("Str", "b108", False), ("Box[int]", "N0[b0]", False), ("struct{ A int }", "b109", False), ("[]Iface", "Sb105", False),
+]
+UNWRAP_CLAUSES = [("T", "o0"), ("[]T", "So0"), ("Box[T]", "N0[o0]"), ("map[string]T", "Mb7o0"), ("*T", "Po0")]
+
+
+def unwrap_structure_tie(chk):
+    """emitted code of `switch v := x.(type) { case T: … case []T: … }` for every kind of type argument: the clause variable
+    is bound to `_ref.$val` exactly when the model says so (GV.Spec.Inst.unwrapIn: decided on the substituted type)"""
+    body = "".join("\tcase %s:\n\t\t_ = v\n\t\treturn %d\n" % (c, i + 1) for i, (c, _) in enumerate(UNWRAP_CLAUSES))
+    calls = "".join("\tn += Sw[%s](nil)\n" % a for (a, _, _) in UNWRAP_ARGS)
+    src = ("package main\n\ntype Pt struct{ X, Y int }\n\ntype Cel float64\n\ntype Str string\n\ntype Iface interface{ M() }\n\n"
+           "type Box[T any] struct{ V T }\n\nfunc Sw[T any](x any) int {\n\tswitch v := x.(type) {\n" + body + "\t}\n\treturn 0\n}\n\n"
+           "func main() {\n\tn := 0\n" + calls + "\tprintln(n)\n}\n")
+    r = run_jobs_retry([{"id": "unwrap", "mod": "gvqunwrap", "files": {"main.go": src}, "variants": ["plain"], "native": False,
+                         "timeout": 300, "keep_js": True}], 1)[0]
+    run = r["runs"]["plain"]
+    js = run.get("js") or ""
+    ias = [e[1:] for (_, e, ia) in UNWRAP_ARGS if ia]
+    ops, impl = [], []
+    # instance functions are emitted in set order = order of the calls in main (ids are package-wide positions)
+    chunks = re.findall(r"Sw\[\d+ /\* [^\n]*? \*/\] = function[^\n]*\n(.*?)\n\t\t\};", js, re.S)
+    for k, (a, enc, _) in enumerate(UNWRAP_ARGS):
+        chunk = chunks[k] if len(chunks) == len(UNWRAP_ARGS) else ""
+        for ci, (c, cenc) in enumerate(UNWRAP_CLAUSES):
+            var = "v" if ci == 0 else "v\\$%d" % ci
+            mm = re.search(r"^\s*%s = (.*);$" % var, chunk, re.M)
+            ops.append("inst unwrap %d %s 1 %s %s" % (len(ias), " ".join(ias), enc, cenc))
+            if not js:
+                impl.append("compile-error:" + (run.get("err") or "")[:200])
+            elif not mm:
+                impl.append("no-binding-found")
+            else:
+                impl.append("val" if "_ref.$val" in mm.group(1) else "iface")
+    model = C.run_driver("C04", ops)
+    chk.compare("typeswitch-unwrap", ops, impl, model, kind=lambda o, a: "unwrap:" + a)
 
 
 # ----------------------------------------------------------------------------------------------------------------
@@ -1255,6 +1378,7 @@ def run(tier, seed):
                                  impl=json.dumps([obs[0][d:d + 4], obs[1]]), spec=json.dumps([nat[0][d:d + 4], nat[1]]), signature=sig)
             elif wclass:
                 chk.notes.append("witness %s no longer fails (finding fixed?)" % j["id"])
+    unwrap_structure_tie(chk)
     chk.extra["programs"] = len(jobs)
     chk.extra["generated_programs"] = len(progs_)
     chk.extra["trace_lines_native"] = sum(len(progs.observe_native(r["runs"]["native"])[0]) for r in res)
